@@ -8,6 +8,7 @@
 use anyhow::Context;
 use anyhow::Result;
 use clap::ValueEnum;
+use regex::Regex;
 use unicode_categories::UnicodeCategories;
 
 use crate::newline::BytesNewline;
@@ -114,17 +115,29 @@ fn escaped_expectation_ascii(line: &[u8]) -> String {
     }
 }
 
+lazy_static! {
+    /// Unicode category "Other": control, format, private use, surrogate and
+    /// - which [`UnicodeCategories::is_other`] does not know - unassigned
+    static ref OTHER: Regex = Regex::new(r"^\p{C}$").expect("category regex must compile");
+}
+
+/// Whether the character cannot be printed: control, format, private use or
+/// unassigned code point
+fn is_unprintable(c: char) -> bool {
+    c.is_other() || OTHER.is_match(c.encode_utf8(&mut [0; 4]))
+}
+
 /// All non-printable unicode are rendered as hexadecimal escape sequence, all
 /// white-spaces as escaped character classes, everything else is printed
 fn escaped_printable_unicode(bytes: &[u8]) -> String {
     let mut seq = [0; 4];
     if let Ok(s) = String::from_utf8(bytes.to_vec()) {
         // backslashes must be escaped themselves as soon as anything is escaped
-        let escape_backslash = s.chars().any(|c| c.is_other());
+        let escape_backslash = s.chars().any(|c| is_unprintable(c));
         return s
             .chars()
             .map(|c| {
-                if c.is_other() {
+                if is_unprintable(c) {
                     let raw = c.encode_utf8(&mut seq).as_bytes();
                     escaped_printable_ascii(raw)
                 } else if c == '\\' && escape_backslash {
@@ -157,7 +170,7 @@ fn escaped_expectation_unicode(line: &[u8]) -> String {
 /// not printable
 fn has_unprintable_unicode(bytes: &[u8]) -> bool {
     String::from_utf8(bytes.to_vec())
-        .map(|s| s.chars().any(|c| c.is_other()))
+        .map(|s| s.chars().any(|c| is_unprintable(c)))
         .unwrap_or(true)
 }
 
